@@ -1,0 +1,47 @@
+//go:build verif
+
+package actor
+
+// Contracts for property C35: relocation handoff masking respects the caller's
+// deadline (deadline arithmetic of deliverAcrossHandoff / sleepWithinHandoff),
+// and the asynchronous path never sleeps.
+
+//@ property C35
+//@ load time github.com/tochemey/goakt/v4/errors
+
+// t0 = the clock reading the masking window is anchored at
+//@ ghost local t0 int64
+//@ ghost local t_nf int64
+
+//@ func (*PID).deliverAcrossHandoff(pid, ctx, actorName, maxWait, deliver)
+//@   requires maxWait < 4611686018427387904
+//@   at call 1 of Now ghost t0 = unixnano(result)
+//@   at call 2 of Now ghost t_nf = unixnano(result)
+//@   loop 1 invariant window-within-budget: maxWait > 0 ==> unixnano(deadline) <= t0 + int64(maxWait)
+//@   loop 1 invariant caller-deadline-is-the-budget: maxWait > 0 ==> unixnano(callerDeadline) == t0 + int64(maxWait)
+//@   loop 1 invariant caller-deadline-set: maxWait > 0 ==> !(callerDeadline.wall == 0 && callerDeadline.ext == 0)
+//@   loop 1 invariant not-found-mask-within-budget: maxWait > 0 ==> (notFoundDeadline.wall == 0 && notFoundDeadline.ext == 0) || unixnano(notFoundDeadline) <= t0 + int64(maxWait)
+//@   loop 1 invariant unbounded-only-without-a-budget: maxWait <= 0 ==> callerDeadline.wall == 0 && callerDeadline.ext == 0
+//@   at call 1 of sleepWithinHandoff assert never-sleeps-past-the-callers-budget: maxWait > 0 ==> unixnano(arg2) <= t0 + int64(maxWait)
+//@   at call 1 of WithDeadline assert final-delivery-bounded-by-what-is-left: maxWait > 0 && unixnano(arg1) <= t0 + int64(maxWait)
+//@   at call 2 of dynamic assert unbounded-delivery-only-without-a-budget: maxWait <= 0
+
+// never sleeps past the deadline it is given; reports false once it has passed
+//@ func sleepWithinHandoff(ctx, duration, deadline)
+//@   at call 1 of NewTimer assert sleeps-at-most-what-remains: arg0 <= remaining && remaining > 0
+
+// the fire-and-forget path resolves once, never waits, and fails fast with the
+// retryable error when the target is pinned to a departing endpoint
+//@ structural nocall (*PID).deliverBypassingHandoff: sleepWithinHandoff, time.Sleep, time.NewTimer, time.After, time.Tick, pause.For
+//@ ghost local byp_cluster bool
+//@ ghost local byp_remote bool
+//@ ghost local byp_relocating bool
+//@ func (*PID).deliverBypassingHandoff(pid, ctx, actorName, deliver)
+//@   ghost entry byp_cluster = false
+//@   ghost entry byp_remote = false
+//@   ghost entry byp_relocating = false
+//@   at call 1 of invoke InCluster ghost byp_cluster = result
+//@   at call 1 of (*PID).IsRemote ghost byp_remote = result
+//@   at call 1 of invoke isEndpointRelocating ghost byp_relocating = result
+//@   at call 1 of dynamic assert never-dials-a-departing-endpoint: !(byp_cluster && byp_remote && byp_relocating)
+//@   ensures relocating-target-fails-fast-and-retryable: byp_cluster && byp_remote && byp_relocating ==> result0 == nil && result1 != nil
